@@ -296,10 +296,11 @@ def write_evidence(pid, cfg, tier, seed, cov, wall, violations):
 
 def run_gens(cfg):
     msgs = []
-    if cfg.get("gens"):
-        import gen  # tools/gen.py
-        for g in cfg["gens"]:
-            msgs.append(getattr(gen, g)())
+    import importlib
+    for g in cfg.get("gens", []):
+        modname, fn = g.split(":")
+        mod = importlib.import_module(modname)  # tools/<modname>.py
+        msgs.append(getattr(mod, fn)())
     return msgs
 
 
